@@ -1,7 +1,9 @@
 (* C13 - Filtering and exporting an on-disk tree is consistent and closed.
-   Model: model/FromDisk.v.  Property theorems only: each is closed by `exact`
-   of a lemma proved in proofs/FromDiskProofs.v / FromDiskExport.v /
-   FromDiskMain.v, with Print Assumptions beneath. *)
+   Model: model/FromDisk.v (name / emptiness filters, export) and
+   model/FromDiskPat.v (glob exclusion patterns, at the end of this file).
+   Property theorems only: each is closed by `exact` of a lemma proved in
+   proofs/FromDiskProofs.v / FromDiskExport.v / FromDiskMain.v /
+   FromDiskPatProofs.v, with Print Assumptions beneath. *)
 From Coq Require Import List NArith Bool Permutation.
 From SWH.lib Require Import Bytes Hex GitHeader Sha1.
 From SWH.model Require Import Dir FromDisk.
@@ -239,3 +241,153 @@ Theorem C13_export_objects_checked : forall (H : bytes -> bytes) m x, In x (expo
   end.
 Proof. exact export_objects_checked. Qed.
 Print Assumptions C13_export_objects_checked.
+
+(* ------------------------------------------------------------------ glob exclusion patterns
+   from_disk.ignore_directories_patterns / extract_regex_objs.  Model:
+   model/FromDiskPat.v - the glob language of fnmatch.translate (validated
+   against re.compile(fnmatch.translate(p)) at run time, not modelled) and the
+   two passes of from_disk parameterised by what the path filter answers in
+   pass 1 (directories AND files) and in pass 2 (directories); proofs in
+   proofs/FromDiskPatProofs.v. *)
+From SWH.model Require Import FromDiskPat.
+From SWH.proofs Require Import FromDiskPatProofs.
+
+(* The two-predicate model is a conservative extension: instantiated with a
+   name / emptiness filter (files accepted, directories judged on their name
+   and entries) it IS FromDisk.from_disk - every theorem above is about it. *)
+Theorem C13_pattern_conservative : forall ord f limit t,
+  from_disk_pat ord (pf_of f) (pf_of f) limit t = from_disk ord f limit t.
+Proof. exact from_disk_pat_conservative. Qed.
+Print Assumptions C13_pattern_conservative.
+
+(* Reading with exclusion patterns IS reading, unfiltered, the copy
+   [prune_pat pats t] from which every entry - file or directory - whose
+   root-relative path matches a pattern was removed with everything below it:
+   the same Merkle tree for the same listing oracle, the same
+   Symlink-too-large error.  Hence every export theorem above applies to it
+   (with t := prune_pat pats t and the filter FAll). *)
+Theorem C13_pattern_exact : forall ord pats limit t, (forall p ks, Permutation (ord p ks) ks) ->
+  from_disk_pat ord (pat_filter pats) (pat_filter pats) limit t = from_disk ord FAll limit (prune_pat pats t).
+Proof. exact pat_exact. Qed.
+Print Assumptions C13_pattern_exact.
+
+(* In the style of C13_named_equiv: any two listing oracles and limits. *)
+Theorem C13_pattern_equiv : forall (H : bytes -> bytes) pats ord ord' limit limit' t m m',
+  (forall p ks, Permutation (ord p ks) ks) -> (forall p ks, Permutation (ord' p ks) ks) -> wf_fs t = true ->
+  from_disk_pat ord (pat_filter pats) (pat_filter pats) limit t = FdOk m ->
+  from_disk ord' FAll limit' (prune_pat pats t) = FdOk m' ->
+  mt_id H m = mt_id H m' /\
+  forall path, option_map (mt_id H) (mt_get path m) = option_map (mt_id H) (mt_get path m').
+Proof. exact pat_equiv. Qed.
+Print Assumptions C13_pattern_equiv.
+
+(* ... and the ids are the git ids of the pruned tree, at the root and at every path. *)
+Theorem C13_pattern_ids : forall (H : bytes -> bytes) pats ord limit t m path,
+  (forall p ks, Permutation (ord p ks) ks) -> wf_fs t = true ->
+  from_disk_pat ord (pat_filter pats) (pat_filter pats) limit t = FdOk m ->
+  mt_id H m = git_node_id H (prune_pat pats t) /\
+  option_map (mt_id H) (mt_get path m) = option_map (git_node_id H) (fs_get path (prune_pat pats t)).
+Proof. exact pat_ids. Qed.
+Print Assumptions C13_pattern_ids.
+
+(* The read raises exactly when a symbolic link OF THE PRUNED TREE is longer
+   than the limit: an excluded link, or one below an excluded directory, is
+   never read. *)
+Theorem C13_pattern_symlink_limit : forall pats ord limit t, (forall p ks, Permutation (ord p ks) ks) ->
+  (from_disk_pat ord (pat_filter pats) (pat_filter pats) limit t = FdSymlinkTooLarge <->
+   exists x, FsSub (Lnk x) (prune_pat pats t) /\ exists l, limit = Some l /\ l < lenN x).
+Proof. exact pat_symlink_limit. Qed.
+Print Assumptions C13_pattern_symlink_limit.
+
+(* What the pruned copy is: a path survives iff none of its non-empty prefixes
+   is excluded, and then holds the pruned sub-tree; files are untouched; the
+   result is a tree a file system can hold. *)
+Theorem C13_prune_pat_spec : forall pats t,
+  (forall q, fs_get q (prune_pat pats t) =
+             if kept (fun p => negb (excluded pats p)) [] q
+             then option_map (prune_path (fun p => negb (excluded pats p)) q) (fs_get q t) else None) /\
+  (forall t', is_fdir t' = false -> forall q, fs_get q (prune_pat pats t) = Some t' -> fs_get q t = Some t') /\
+  (wf_fs t = true -> wf_fs (prune_pat pats t) = true).
+Proof. exact prune_pat_spec. Qed.
+Print Assumptions C13_prune_pat_spec.
+
+(* The exact condition for "two passes = one physical pruning", for ANY pair
+   of answers (pf1 in pass 1, pf2 in pass 2): pf1 looks at the path only, and
+   pf2 accepts every directory whose path pf1 accepts.  In particular the
+   second pass is then the identity (C13_pattern_pass2_noop). *)
+Theorem C13_pattern_two_pass : forall ord pf1 pf2 (keep : list bytes -> bool) limit t,
+  (forall p ks, Permutation (ord p ks) ks) ->
+  (forall p e, pf1 p e = keep p) -> (forall p e, keep p = true -> pf2 p (Some e) = true) ->
+  from_disk_pat ord pf1 pf2 limit t = from_disk ord FAll limit (prune_path keep [] t).
+Proof. exact two_pass_is_prune. Qed.
+Print Assumptions C13_pattern_two_pass.
+
+Theorem C13_pattern_pass2_noop : forall ord pf1 pf2 limit,
+  (forall p ks, Permutation (ord p ks) ks) ->
+  (forall p e e', pf1 p (Some e) = true -> pf2 p (Some e') = true) ->
+  forall t path m, buildp ord pf1 limit path t = FdOk m -> prune2p pf2 path m = m.
+Proof. exact pass2_noop. Qed.
+Print Assumptions C13_pattern_pass2_noop.
+
+(* REFUTED for the code before commit 270736c: pass 2 showed the filter the
+   path relative to the top directory with a leading '/', which
+   pattern_filter read as absolute: relative to a root k >= 1 components deep
+   that is "../" k times + path, and the pattern ".*" rejects EVERY directory
+   (old_pass2_removes_every_directory).  Witness root/{.git/x, src/{a,
+   .hidden}, README}: src/ disappears, the read differs from the pruned copy. *)
+Theorem C13_pattern_pass2_refuted_old : forall k, (1 <= k)%nat ->
+  from_disk_pat id_ord (pat_filter [bs ".*"]) (old_pass2 k [bs ".*"]) None ex_pat_tree
+  <> from_disk id_ord FAll None (prune_pat [bs ".*"] ex_pat_tree) /\
+  (exists m, from_disk_pat id_ord (pat_filter [bs ".*"]) (old_pass2 k [bs ".*"]) None ex_pat_tree = FdOk m /\
+             mt_get [bs "src"] m = None) /\
+  (exists m, from_disk id_ord FAll None (prune_pat [bs ".*"] ex_pat_tree) = FdOk m /\
+             mt_get [bs "src"; bs "a"] m <> None /\ mt_get [bs "src"; bs ".hidden"] m <> None /\ mt_get [bs ".git"] m = None).
+Proof. exact pattern_pass2_refuted_old. Qed.
+Print Assumptions C13_pattern_pass2_refuted_old.
+
+Theorem C13_pattern_old_pass2_removes_every_directory : forall k path ks, (1 <= k)%nat ->
+  prune2p (old_pass2 k [bs ".*"]) path (MNode ks) = MNode (filter is_leaf_kid ks).
+Proof. exact old_pass2_removes_every_directory. Qed.
+Print Assumptions C13_pattern_old_pass2_removes_every_directory.
+
+(* The glob matcher (total by construction: a structural boolean function):
+   '*' matches every text, '/' included; a pattern without '*', '?', '['
+   matches exactly itself; "name*" = the texts starting with name; "*name" =
+   the texts ending with name; ".*" = the texts starting with a dot. *)
+Theorem C13_glob_facts :
+  (forall s, glob_match [STAR] s = true) /\
+  (forall p s, Forall literal_byte p -> (glob_match p s = true <-> s = p)) /\
+  (forall p s, Forall literal_byte p -> (glob_match (p ++ [STAR]) s = true <-> exists s', s = p ++ s')) /\
+  (forall p s, Forall literal_byte p -> (glob_match (STAR :: p) s = true <-> exists s', s = s' ++ p)) /\
+  (forall s, glob_match (bs ".*") s = true <-> exists s', s = 46 :: s').
+Proof. exact glob_facts. Qed.
+Print Assumptions C13_glob_facts.
+
+(* Non-vacuity: bracket expressions, '?', '*' across '/', patterns hitting
+   files only, everything, nothing; a filtered read under a non-identity
+   listing oracle and a limit. *)
+Theorem C13_pattern_satisfiable :
+  wf_fs ex_pat_tree = true /\
+  prune_pat [bs ".*"] ex_pat_tree = FDir [ (bs "src", FDir [ (bs "a", Reg (bs "int main;") 420); (bs ".hidden", Reg (bs "h") 420) ]);
+                                          (bs "README", Reg (bs "hello") 420) ] /\
+  prune_pat [bs "src/a"; bs "READ??"] ex_pat_tree
+    = FDir [ (bs ".git", FDir [ (bs "x", Reg (bs "ref") 420) ]); (bs "src", FDir [ (bs ".hidden", Reg (bs "h") 420) ]) ] /\
+  prune_pat [bs "*"] ex_pat_tree = FDir [] /\
+  (exists m, from_disk_pat rev_ord (pat_filter [bs "*/a"; bs "[!.]*E"]) (pat_filter [bs "*/a"; bs "[!.]*E"]) (Some 3) ex_pat_tree = FdOk m /\
+             mt_id sha1 m = node_id sha1 (prune_pat [bs "*/a"; bs "[!.]*E"] ex_pat_tree) /\
+             mt_get [bs "src"; bs ".hidden"] m <> None /\ mt_get [bs "src"; bs "a"] m = None /\ mt_get [bs "README"] m = None).
+Proof. exact ex_pat_ok. Qed.
+Print Assumptions C13_pattern_satisfiable.
+
+(* Degenerate filter arguments: an EMPTY pattern list excludes nothing - the
+   read is the plain read; the pattern list is a set (order and duplicates are
+   irrelevant: the code keeps a set of compiled patterns); the empty pattern
+   matches the empty relative path only, i.e. nothing below the root. *)
+Theorem C13_pattern_empty_list : forall t,
+  prune_pat [] t = t /\
+  (forall ord limit, (forall p ks, Permutation (ord p ks) ks) ->
+     from_disk_pat ord (pat_filter []) (pat_filter []) limit t = from_disk ord FAll limit t) /\
+  (forall pats pats', (forall p, In p pats <-> In p pats') -> prune_pat pats t = prune_pat pats' t) /\
+  (forall s, glob_match [] s = true <-> s = []).
+Proof. exact pattern_empty_list. Qed.
+Print Assumptions C13_pattern_empty_list.
